@@ -330,7 +330,7 @@ def finish(chk: Check, seed=0):
     matched = [o for k, o in seen.items() if k in known_keys]
     stale = [k for k in known_keys if k not in seen]
 
-    outdir = VERIF / 'out' / chk.pid
+    outdir = Path(os.environ.get('VERIF_OUT_DIR') or VERIF / 'out') / chk.pid
     outdir.mkdir(parents=True, exist_ok=True)
     for old in outdir.glob('violation_*.json'):
         old.unlink()
@@ -411,7 +411,7 @@ def finish(chk: Check, seed=0):
         'wall_s': round(wall, 3),
         'violations': len(new),
     }
-    evdir = VERIF / 'evidence'
+    evdir = Path(os.environ.get('VERIF_EVIDENCE_DIR') or VERIF / 'evidence')
     evdir.mkdir(exist_ok=True)
     (evdir / f'{chk.pid}.json').write_text(json.dumps(ev, indent=1))
     print(
